@@ -211,6 +211,7 @@ func handle(req *Req) *Resp {
 						d++
 					}
 					if c > req.PB || d > req.Dev {
+						st.Pruned++
 						continue
 					}
 					p := make([]int32, i+1)
